@@ -92,15 +92,20 @@ func (e editor) leaf(from *Selection, to *Selection, m meta.Leafable, new bool, 
 	}
 
 	if hnd.Val != nil {
+		r.Selection = to
+		r.From = from
 		// If there is a different choice selected, need to clear it
 		// first if in upsert mode
 		if strategy == editUpsert {
+			// (not for a value that is going to be refused: a rejected write leaves everything as it was)
+			r.Write = true
+			if proceed, err := to.Constraints.CheckFieldPreConstraints(&r, &hnd); !proceed || err != nil {
+				return err
+			}
 			if err := e.clearOnDifferentChoiceCase(to, m); err != nil {
 				return err
 			}
 		}
-		r.Selection = to
-		r.From = from
 		if err := to.set(&r, &hnd); err != nil {
 			return err
 		}
